@@ -262,6 +262,8 @@ struct FlatAct<'a> {
 pub struct TourReplay {
     pub distance: i64,
     pub duration: f64,
+    /// (resource id, what the tour loads at a reload which draws from that resource), one entry per reload interval
+    pub resource_use: Vec<(String, Vec<i64>)>,
 }
 
 /// Which task of a multi-task job an activity stands for is not observable from the document when tasks
@@ -711,6 +713,7 @@ fn check_tour_inner(m: &PModel, ti: usize, t: &STour, assign: &BTreeMap<usize, u
     }
 
     // ---- loads
+    let mut resource_use: Vec<(String, Vec<i64>)> = vec![];
     {
         let task_of = |i: usize| matched[i].map(|(ji, tk)| (&m.jobs[ji], &m.jobs[ji].tasks[tk]));
         let mut load: Vec<i64> = vec![0; dims];
@@ -739,6 +742,22 @@ fn check_tour_inner(m: &PModel, ti: usize, t: &STour, assign: &BTreeMap<usize, u
                 }
             }
             add(&mut load, &start_delivery, 1);
+            // what is loaded at a reload is drawn from its shared resource (static deliveries and replacements of the interval)
+            if s > 0 && flat[s].act.job_id == "reload" && all_matched {
+                let loc = flat[s].act.loc.or(flat[s].stop.loc);
+                let fits: Vec<&crate::oracle::model::PReload> = shift
+                    .reloads
+                    .iter()
+                    .filter(|r| r.place.loc == loc && (r.place.tag.is_none() || flat[s].act.tag.is_none() || r.place.tag == flat[s].act.tag))
+                    .collect();
+                let ids: BTreeSet<Option<&String>> = fits.iter().map(|r| r.resource.as_ref()).collect();
+                // attributable only when every reload definition the activity can stand for draws from the same resource
+                if ids.len() == 1 {
+                    if let Some(Some(id)) = ids.into_iter().next() {
+                        resource_use.push((id.clone(), start_delivery.clone()));
+                    }
+                }
+            }
             let check = |load: &Vec<i64>, at: usize, out: &mut Vec<Issue>, probes: &mut Probes| {
                 for d in 0..load.len() {
                     let cap = vt.capacity.get(d).copied().unwrap_or(0);
@@ -841,7 +860,7 @@ fn check_tour_inner(m: &PModel, ti: usize, t: &STour, assign: &BTreeMap<usize, u
             }
         }
     }
-    Some(TourReplay { distance: cum_dist, duration: total_duration })
+    Some(TourReplay { distance: cum_dist, duration: total_duration, resource_use })
 }
 
 pub fn check_solution_level(m: &PModel, s: &SSolution, out: &mut Vec<Issue>, probes: &mut Probes) {
@@ -893,8 +912,26 @@ pub fn check_all(m: &PModel, s: &SSolution) -> (Vec<Issue>, Probes) {
     let mut out = vec![];
     let mut probes = Probes::default();
     check_partition(m, s, &mut out, &mut probes);
+    let mut drawn: BTreeMap<String, Vec<i64>> = BTreeMap::new();
     for (ti, t) in s.tours.iter().enumerate() {
-        check_tour(m, ti, t, &mut out, &mut probes);
+        if let Some(r) = check_tour(m, ti, t, &mut out, &mut probes) {
+            for (id, amount) in r.resource_use {
+                let e = drawn.entry(id).or_default();
+                if e.len() < amount.len() {
+                    e.resize(amount.len(), 0);
+                }
+                add(e, &amount, 1);
+            }
+        }
+    }
+    // shared reload resources: what all tours together load at reloads bound to a resource fits its capacity, per dimension
+    for (id, amount) in &drawn {
+        probes.resources_checked += 1;
+        if let Some(cap) = m.resources.get(id) {
+            if amount.iter().enumerate().any(|(d, a)| *a > cap.get(d).copied().unwrap_or(0)) {
+                issue(&mut out, "C01", "shared-resource", format!("reloads draw {:?} from resource '{id}' of capacity {:?}", amount, cap));
+            }
+        }
     }
     check_solution_level(m, s, &mut out, &mut probes);
     (out, probes)
